@@ -193,10 +193,10 @@ def _case_sho(ctx, prm):
             ctx.nontrivial(("BasisSHO", par, sym))
         sig = f"BasisSHO|symbol={canon}"
         if kind == "ladder" and dvr:
-            # undocumented: record what the library does, demand nothing
-            ctx.count("observation:sho-dvr-ladder-unrotated" if _same(got, plain, TOL) else
-                      "observation:sho-dvr-ladder-rotated" if _same(got, rot(plain), TOL) else
-                      "observation:sho-dvr-ladder-other")
+            # one basis object returns all of its operators in ONE representation: with dvr=True the ladder operators are
+            # V^T (plain matrix) V like x and p (test_BasisSHO states that contract for x, x^2, p, p^2)
+            ctx.cls("sho-dvr-ladder")
+            _cmp(ctx, got, rot(plain), TOL, sig + "|dvr-not-rotated", floor=fl)
             continue
         if kind in ("ladder", "identity"):
             _cmp(ctx, got, plain, TOL, sig + "|matrix-differs", floor=fl)
